@@ -20,6 +20,8 @@ class FST(WFSA):
     The FST defines a weighted relation between strings over A and strings over B.
     """
 
+    _N_FIELDS = WFSA._N_FIELDS + 2  # A and B
+
     def __init__(self, R):
         """Initialize an empty FST.
 
